@@ -145,7 +145,10 @@ def run_harness(pid, n, seed, extra=(), timeout=1800, tier="quick"):
     for line in p.stdout.splitlines():
         line = line.strip()
         if line.startswith("{"):
-            cases.append(json.loads(line))
+            c = json.loads(line)
+            if c.get("text") is None:      # (a Go nil slice is marshalled as null)
+                c["text"] = [c.get("oracle") or ""] if c.get("oracle") else []
+            cases.append(c)
     return p.returncode, cases, p.stderr[-4000:]
 
 
